@@ -28,6 +28,45 @@ theorem b64_len_ge (b : Bytes) (h : b ≠ []) : 1 ≤ (B64.enc b).length := by
   | [_, _] => simp [B64.enc]
   | _ :: _ :: _ :: _ => simp [B64.enc]
 
+theorem isBoundary_of_ascii {s : Bytes} (h : isAscii s = true) (i : Nat) (hi : i ≤ s.length) :
+    isBoundary s i = true := by
+  simp only [isBoundary, Bool.or_eq_true, beq_iff_eq]
+  by_cases he : i = s.length
+  · exact Or.inl he
+  · right
+    have hlt : i < s.length := by omega
+    simp only [isAscii, List.all_eq_true, decide_eq_true_eq] at h
+    have := h s[i] (List.getElem_mem hlt)
+    simp [List.getElem?_eq_getElem hlt, this]
+
+theorem strSlice_of_ascii {s : Bytes} (h : isAscii s = true) (lo hi : Nat) (h1 : lo ≤ hi) (h2 : hi ≤ s.length) :
+    strSlice s lo hi = some ((s.drop lo).take (hi - lo)) := by
+  simp [strSlice, h1, h2, isBoundary_of_ascii h lo (by omega), isBoundary_of_ascii h hi h2]
+
+/-- the checked slices of `from_str` never fail: it computes `fromStrPure` -/
+theorem fromStr_eq_pure (Z : Zlib) (s : Bytes) : fromStr Z s = fromStrPure Z s := by
+  unfold fromStr fromStrPure
+  split
+  · rfl
+  · rename_i hl
+    split
+    · rfl
+    · rename_i ha
+      have ha : isAscii s = true := by
+        cases hx : isAscii s with
+        | true => rfl
+        | false => simp [hx] at ha
+      rw [strSlice_of_ascii ha 0 2 (by omega) (by omega), strSlice_of_ascii ha 2 s.length (by omega) (by omega)]
+      have : List.take (s.length - 2) (List.drop 2 s) = List.drop 2 s :=
+        List.take_of_length_le (by simp)
+      simp [this]
+
+theorem fromStr_nopanic (Z : Zlib) (s : Bytes) : fromStr Z s ≠ .error .panic := by
+  rw [fromStr_eq_pure]
+  unfold fromStrPure fromBody
+  repeat' split
+  all_goals simp
+
 theorem fromStr_serialize (Z : Zlib) (hZ : Z.Contract) (m : Machine)
     (hv : Validate.machine m = true) (hwf : Codec.WFm m = true)
     (hlen : (Codec.encMachine m).length ≤ MAX) :
@@ -41,14 +80,16 @@ theorem fromStr_serialize (Z : Zlib) (hZ : Z.Contract) (m : Machine)
     simp [serialize, versionStr_length]
   have hd : (serialize Z m).drop 2 = B64.enc (Z.deflate (Codec.encMachine m)) := by
     simp [serialize, versionStr_length]
-  simp [fromStr, hl, ha, ht, hd, B64.dec_enc, hZ.read_deflate _ hlen,
+  rw [fromStr_eq_pure]
+  simp [fromStrPure, fromBody, hl, ha, ht, hd, B64.dec_enc, hZ.read_deflate _ hlen,
     Codec.decodeMachine_encMachine m hwf, hv]
 
 theorem fromStr_ok {Z : Zlib} {s : Bytes} {m : Machine} (h : fromStr Z s = .ok m) :
     ∃ compressed raw, 3 ≤ s.length ∧ isAscii s = true ∧ s.take 2 = versionStr ∧
       B64.dec (s.drop 2) = some compressed ∧ Z.readOnce compressed = some raw ∧
       Codec.decodeMachine raw = some m ∧ Validate.machine m = true := by
-  simp only [fromStr] at h
+  rw [fromStr_eq_pure] at h
+  simp only [fromStrPure, fromBody] at h
   repeat' split at h
   all_goals (try simp at h)
   rename_i h1 h2 h3 _ c hc _ raw hr _ m' hm hv
